@@ -25,6 +25,7 @@ import (
 
 	"github.com/olric-data/olric/internal/cluster/partitions"
 	"github.com/olric-data/olric/internal/protocol"
+	"github.com/olric-data/olric/internal/verifhook"
 )
 
 var (
@@ -59,6 +60,9 @@ func (dm *DMap) unlockKey(ctx context.Context, key string, token []byte) error {
 	// the lock is released by the node(timeout) or the user
 	if !bytes.Equal(entry.Value(), token) {
 		return ErrNoSuchLock
+	}
+	if verifhook.Enabled {
+		verifhook.Point("lock.afterGet", dm.s.rt.This().String(), key)
 	}
 
 	// release it.
@@ -186,6 +190,9 @@ func (dm *DMap) leaseKey(ctx context.Context, key string, token []byte, timeout 
 	// the lock is released by the node(timeout) or the user
 	if !bytes.Equal(e.Value(), token) {
 		return ErrNoSuchLock
+	}
+	if verifhook.Enabled {
+		verifhook.Point("lock.afterGet", dm.s.rt.This().String(), key)
 	}
 
 	ttl := e.TTL()
